@@ -268,6 +268,7 @@ static int submit(thread_pool_t *interface, void *ptr)
 
 	pthread_cond_broadcast(&pool->queue_cond);
 	pthread_mutex_unlock(&pool->mtx);
+	VERIF_EVENT(6, 0, 0, 0);
 
 	if (status != 0) {
 		memset(item, 0, sizeof(*item));
